@@ -297,11 +297,15 @@ def step (st : St) (ts : List String) : St × String :=
     | some bs => if k == .sb ∨ st.rest.length < 4 then (st, "na") else (st, s!"{bs.length} {hex bs}")
   | ["rs"] =>
     if !st.reading then (st, "not-reading") else
+    match st.pieces with
+    | some ps =>      -- a Socket fed in pieces: prefix and body through the receive loop (`C16.socket_string_read_fragment_independent`)
+      match getStringFrag st.re ps with
+      | none => (st, "na")
+      | some (s, ps') => ({ st with rest := ps'.flatten, pieces := some ps' }, s!"{s.length} {hex s}")
+    | none =>
     match getString k st.re st.rest with
     | none => (st, "na")
-    | some (s, rest) =>
-      -- `>> String` is not run over the pieces: what is left stays pending as one piece
-      ({ st with rest := rest, pieces := st.pieces.map fun _ => if rest.isEmpty then [] else [rest] }, s!"{s.length} {hex s}")
+    | some (s, rest) => ({ st with rest := rest }, s!"{s.length} {hex s}")
   | _ => (st, "bad-op")
 
 end Driver.C16
